@@ -79,8 +79,8 @@ void WorldQ::full_scan_check(const char *when) {
 }
 
 // ---------------------------------------------------------------- reference: qmail-queue envelope acceptance
-int WorldQ::expected_exit(const std::string &e) const {
-  size_t i = 0; const size_t ADDR = 1003;
+int WorldQ::expected_exit(const std::string &e, size_t *consumed) const {
+  size_t i0 = 0; size_t &i = consumed ? *consumed : i0; i = 0; const size_t ADDR = 1003;
   if (i >= e.size()) return 54;
   if (e[i] != 'F') return 91;
   i++;
@@ -113,6 +113,7 @@ void WorldQ::check_publication(GMsg *m, const Event &e) {
   if (m->uid == uids["alias"]) who = "by alias"; else if (m->uid == uids["qmaild"]) who = "from network"; else if (m->uid == uids["qmails"]) who = "for bounce"; else who = "by uid " + std::to_string(m->uid);
   std::string expect_mess = "Received: (qmail " + std::to_string(m->inj_pid) + " invoked " + who + "); " + date822(start) + m->body;
   std::string env = m->env_raw;
+  { size_t used = 0; if (expected_exit(env, &used) == 0) env.resize(used); }   // bytes after the terminator are not read
   std::string expect_todo = "u" + std::to_string(m->uid) + std::string(1, '\0') + "p" + std::to_string(m->inj_pid) + std::string(1, '\0') + env.substr(0, env.size() ? env.size() - 1 : 0);
   if (expected_exit(env) != 0) { violate("C01.malformed-envelope-published", "envelope " + printable(env, 80) + " must be refused with " + std::to_string(expected_exit(env))); return; }
   Inode *mi = k->lookup(qp("mess", m->num, true)); Inode *ti = k->lookup(qp("todo", m->num, false));
@@ -216,7 +217,7 @@ void WorldQ::on_queue_event(const Event &e) {
       if (!enabled("c01") || !m->tagged) break;
       if (!signaled && code == 0 && !m->published) violate("C01.success-without-publication", m->id + " exited 0 but todo/" + std::to_string(m->num) + " was never linked");
       bool faulty = m->fault_hit;
-      for (auto &f : plan->faults) if (f.fired && (f.kind == "signal" || f.kind == "null" || f.kind == "kill" || f.kind == "stall")) { if (f.actor.empty() || p->actor().compare(0, f.actor.size(), f.actor) == 0 || f.actor.compare(0, 11, "qmail-queue") == 0) faulty = true; }
+      for (auto &f : k->faults) if (f.fired && (f.kind == "signal" || f.kind == "null" || f.kind == "kill" || f.kind == "stall")) { if (f.actor.empty() || p->actor().compare(0, f.actor.size(), f.actor) == 0 || f.actor.compare(0, 11, "qmail-queue") == 0) faulty = true; }
       if (k->fault_counts.count("alloc_fail")) faulty = true;
       int want = expected_exit(m->env_raw);
       if (!signaled && !faulty) {
@@ -276,7 +277,7 @@ void WorldQ::on_command(const SpawnCmd &c0) {
   }
   delnum_used[ch].insert(c.delnum); outstanding_count[ch] = (int)delnum_used[ch].size();
   if (enabled("c04") && outstanding_count[ch] > bound) violate("C04.concurrency-exceeded", "channel " + std::to_string(ch) + ": " + std::to_string(outstanding_count[ch]) + " outstanding > " + std::to_string(bound));
-  if (send_term_seen && enabled("c04")) violate("C04.command-after-term", "delivery command for msg " + std::to_string(c.num) + " after SIGTERM was handled");
+  // (a command may legitimately follow the TERM handler: the handler can run between the daemon's test of its exit flag and the next call)
   if (tg) tg->on_command(c);
   auto it = bynum.find(c.num);
   if (it == bynum.end()) { if (enabled("c04")) violate("C04.command-for-unknown-message", c.messid); return; }
@@ -288,6 +289,7 @@ void WorldQ::on_command(const SpawnCmd &c0) {
   if (enabled("c04")) {
     if (r->outstanding >= 0) violate("C04.two-attempts-in-flight", m->id + " " + r->addr);
     bool judge = !io_faults_in_daemon;
+    if (r->k_reports > 0 && judge && !had_crash && !had_proc_crash) violate("C04.delivered-twice", m->id + " recipient " + r->addr + " already reported delivered (K) is attempted again although nothing crashed");
     if (r->marked && judge) violate("C04.finished-recipient-retried", m->id + " recipient " + r->addr + " was attempted again after its completion mark was written");
   }
   r->outstanding = c.delnum; r->cmds++; r->cmds_since_boot++; r->last_verdict = 0; r->last_cmd_t = k->clock;
@@ -340,7 +342,7 @@ void WorldQ::on_send_event(const Event &e) {
   if (e.call == C_EXEC || e.call == C_SPAWN) {
     if (p->tag == "second") return;
     send_pid = e.pid; send_incarnation++; send_exiting = false; send_term_seen = false;
-    for (int c = 0; c < 2; c++) { delnum_used[c].clear(); outstanding_count[c] = 0; }
+    for (int c = 0; c < 2; c++) { delnum_used[c].clear(); outstanding_count[c] = 0; cmdbuf[c].clear(); }
     for (auto &pr : bynum) for (auto &r : pr.second->rc) { r.outstanding = -1; r.cmds_since_boot = 0; }
     return;
   }
@@ -353,6 +355,7 @@ void WorldQ::on_send_event(const Event &e) {
     case C_EXIT: {
       if (e.pid != send_pid) break;
       int code = ((int)e.a >> 8) & 0xff; bool sig = ((int)e.a & 0x7f) != 0;
+      if (sig) had_proc_crash = true;
       if (!sig && code == 0 && send_term_seen && enabled("c04")) {
         for (int c = 0; c < 2; c++) if (!delnum_used[c].empty()) {
           bool alive = k->find_role(c == 0 ? "qmail-lspawn" : "qmail-rspawn") != nullptr;
@@ -363,6 +366,20 @@ void WorldQ::on_send_event(const Event &e) {
       break;
     }
     case C_WRITE: {
+      if (e.ret > 0 && !e.ino && e.pipe && (e.fd == 1 || e.fd == 3)) {
+        // delivery commands leave the daemon here: delnum, messid\0 sender\0 recip\0
+        int ch = e.fd == 1 ? 0 : 1; std::string &b = cmdbuf[ch]; b.append(e.data, (size_t)e.ret);
+        for (;;) {
+          if (b.size() < 1) break;
+          size_t a1 = b.find('\0', 1); if (a1 == std::string::npos) break;
+          size_t a2 = b.find('\0', a1 + 1); if (a2 == std::string::npos) break;
+          size_t a3 = b.find('\0', a2 + 1); if (a3 == std::string::npos) break;
+          SpawnCmd c; c.chan = ch; c.delnum = (unsigned char)b[0]; c.messid = b.substr(1, a1 - 1); c.sender = b.substr(a1 + 1, a2 - a1 - 1); c.recip = b.substr(a2 + 1, a3 - a2 - 1); c.t = k->clock; c.num = 0;
+          b.erase(0, a3 + 1);
+          on_command(c);
+        }
+        break;
+      }
       if (e.ret <= 0 || !e.ino) break;
       if (!parse_qpath(e.path, dir, n)) break;
       auto it = bynum.find(n); GMsg *m = it == bynum.end() ? nullptr : it->second;
